@@ -848,3 +848,30 @@ Proof.
       by (unfold export_entries; rewrite map_map; apply map_ext; intros [a b]; reflexivity).
     intros k Hk. apply Hout. rewrite <- Hk'. exact Hk.
 Qed.
+
+(* ---------------------------------------------------------------- a decision procedure for wf_desc *)
+Fixpoint nodup_refs (l : list ref) : bool :=
+  match l with
+  | [] => true
+  | x :: r => negb (existsb (ref_eqb x) r) && nodup_refs r
+  end.
+Lemma nodup_refs_NoDup l : nodup_refs l = true -> NoDup l.
+Proof.
+  induction l as [|x r IH]; cbn [nodup_refs]; intros H; [constructor|].
+  apply andb_prop in H as [H1 H2]. apply negb_true_iff in H1. constructor; [|apply IH; exact H2].
+  intros Hin. assert (existsb (ref_eqb x) r = true) by (apply existsb_exists; exists x; split; [exact Hin|apply ref_eqb_refl]).
+  congruence.
+Qed.
+Definition wf_desc_b (D : desc) : bool :=
+  forallb (fun e => match e with Enum _ _ _ values _ _ => match values with [] => false | _ => true end end) (d_enums D)
+  && nodup_refs (all_keys D)
+  && forallb (fun m => nodup_str (map f_json (m_fields m) ++ exposed_jnames m)) (d_msgs D).
+Lemma wf_desc_b_sound D : wf_desc_b D = true -> wf_desc D.
+Proof.
+  unfold wf_desc_b. intros H. apply andb_prop in H as [H H3]. apply andb_prop in H as [H1 H2].
+  split; [|split].
+  - intros e He. pose proof (proj1 (forallb_forall _ _) H1 e He) as Hx. destruct e as [a b c values d f].
+    cbn [enum_nonempty]. destruct values; [discriminate|intros Hc; discriminate].
+  - apply nodup_refs_NoDup. exact H2.
+  - intros m Hm. apply nodup_str_NoDup. apply (proj1 (forallb_forall _ _) H3 m Hm).
+Qed.
